@@ -141,6 +141,11 @@ class GraphicalModel:
         kopy = self.__class__()
         # Copy the source net
         kopy.source_net = nx.DiGraph(self.source_net)
+        # Copy also the state dictionaries of the nodes so that changing the copy
+        # (e.g. its parameter flags) does not alter this graph
+        for name, node_dict in kopy.source_net.nodes(data=True):
+            if 'attr_dict' in node_dict:
+                node_dict['attr_dict'] = node_dict['attr_dict'].copy()
         return kopy
 
     def __copy__(self, *args, **kwargs):
